@@ -152,7 +152,7 @@ def gen_pairs(ctx, rng, count, ref=None):
     out = []
     templates = ["hand_made.mpd", "manifest_a.mpd", "manifest_n.mpd", "hand_made.mpd"]
     for i in range(count):
-        stream = ["bbb", "tears", "syn1", "syn2", "syn3", "syn4", "syn5", "syn7", "syn8", "syn9"][(i + i // 10) % 10]
+        stream = ["bbb", "tears", "syn1", "syn2", "syn3", "syn4", "syn5", "syn7", "syn8", "syn9", "syn6"][(i + i // 11) % 11]
         man = templates[(i // 5) % 4]
         depth = rng.choice([20, 40, 60, 120])
         opts = {"timeline": "1", "depth": str(depth)}
@@ -307,7 +307,7 @@ def ch_pair(ctx, cases=None) -> Channel:
     plines, precs = [], []
     with appboot.Clock("2023-01-01T00:00:00Z") as clock:
         ref = {}
-        for st_ in ("bbb", "tears", "syn1", "syn2", "syn3", "syn4", "syn5", "syn7", "syn8", "syn9"):
+        for st_ in ("bbb", "tears", "syn1", "syn2", "syn3", "syn4", "syn5", "syn7", "syn8", "syn9", "syn6"):
             t0 = next(iter(segchecks.tracks(app, st_).values()))
             ref[st_] = t0.ref_dur / t0.ref_ts
         for stream, url, t1, t2, kind, opts, defaults in (cases or gen_pairs(ctx, rng, ctx.scale(64, 2000), ref)):
@@ -442,7 +442,7 @@ def ch_pair(ctx, cases=None) -> Channel:
             if overlap:
                 ch.nontrivial.add((url, case["t1"], case["t2"]))
             ch.sample(case, limit=3)
-    for st_ in ("bbb", "tears", "syn1", "syn2", "syn3", "syn4", "syn5", "syn7", "syn8", "syn9"):
+    for st_ in ("bbb", "tears", "syn1", "syn2", "syn3", "syn4", "syn5", "syn7", "syn8", "syn9", "syn6"):
         set_stream_defaults(app, st_, None)
     for (case, impl_p), mo in zip(precs, _driver(ch, plines)):
         ch.count("patch_model_compared")
